@@ -40,6 +40,8 @@ def _case(draw, nmax):
     case = {"kind": kind, "metric": name, "pkind": pk, "nt": nt, "nv": nv, "nq": nq, "X": pts, "Y": Y, "Yv": draw(gen.labels(nv, K, K)), "pre": pre,
             "max_k": draw(st.integers(1, min(3, nt - 1)))}
     case["min_k"] = draw(st.integers(1, case["max_k"]))
+    if pk == "lattice":
+        case["train_dtype"] = draw(st.sampled_from(["float64", "int64", "uint8", "float32"]))
     return case
 
 
@@ -55,7 +57,7 @@ def snapshot(m):
     for a in ("max_k", "min_k"):
         if hasattr(m, a):
             s[a] = getattr(m, a)
-    s["features"] = [models.np().asarray(nd.features).tolist() for nd in m.subgraph.nodes]
+    s["features"] = [(str(models.np().asarray(nd.features).dtype), models.np().asarray(nd.features).tolist()) for nd in m.subgraph.nodes]
     return s
 
 
@@ -73,6 +75,10 @@ def check_case(case):
     cls = models.classes()[kind]
     X = np.array(pts, dtype=float)
     Xt, Xv, Xq = X[:nt], X[nt:nt + nv], X[nt + nv:]
+    if case.get("train_dtype", "float64") != "float64":
+        # integer / narrow-float training matrix (lattice values are small non-negative integers); probes stay float64 and get a fractional part
+        Xt = Xt.astype(np.dtype(case["train_dtype"]))
+        Xq = Xq + 0.25
     Y, Yv = np.array(case["Y"], dtype=int), np.array(case["Yv"], dtype=int)
     kw = {"distance": name}
     if kind == "knn":
